@@ -391,6 +391,7 @@ func (x *Exec) prelude() string {
 		case k == "pow":
 			b.WriteString("(assert (forall ((e Real)) (! (=> (>= e 0.0) (>= (uf.pow 2.0 e) 1.0)) :pattern ((uf.pow 2.0 e)))))\n")
 			b.WriteString("(assert (= (uf.pow 2.0 0.0) 1.0))\n")
+			b.WriteString("(assert (forall ((e Real)) (! (> (uf.pow 2.0 e) 0.0) :pattern ((uf.pow 2.0 e)))))\n")
 		case k == "epoch":
 			b.WriteString("(assert (> time.epoch 0))\n")
 		case strings.HasPrefix(k, "card:"):
